@@ -56,7 +56,65 @@ pub fn corpus() -> Vec<PathBuf> {
     v
 }
 
+/// Generated projects are virtual files: `/c19gen/s<seed>-<index>.<ext>`; their text is a pure function of the name.
+pub const GEN_PREFIX: &str = "/c19gen/";
+pub const GEN_POOL: usize = 24;
+
+pub fn gen_name(seed: u64, i: usize) -> String {
+    format!("{}s{}-{:02}.{}", GEN_PREFIX, seed, i, if i % 2 == 0 { "ctehexml" } else { "cte" })
+}
+
+/// Text of a generated project: a generated building printed as .ctehexml (even index; two in three with a shipped
+/// systems section) or as legacy BDL (odd index); for two in three of them every quoted name gets accented letters
+/// (consistently, so that references still resolve), as Spanish projects have them.
+pub fn gen_text(path: &str) -> Option<String> {
+    use crate::gen::building;
+    let name = path.strip_prefix(GEN_PREFIX)?.strip_prefix('s')?;
+    let (seed, rest) = name.split_once('-')?;
+    let (idx, ext) = rest.split_once('.')?;
+    let seed: u64 = seed.parse().ok()?;
+    let i: usize = idx.parse().ok()?;
+    let blds = crate::fuzz::sample_values(&building::bld(), GEN_POOL, seed, "C19/gen-faults");
+    let b = blds.get(i)?;
+    let text = if ext == "ctehexml" {
+        let systems = building::shipped_systems_sections();
+        let sys = if systems.is_empty() || i % 3 == 0 { vec![] } else { vec![systems[i % systems.len()].clone()] };
+        building::print_ctehexml(b, &sys)
+    } else {
+        building::print_bdl_with_preamble(b)
+    };
+    let map: &[(char, char)] = match (i / 2) % 3 {
+        0 => &[],
+        1 => &[('a', 'á'), ('o', 'ó'), ('i', 'í')],
+        _ => &[('e', 'é'), ('n', 'ñ'), ('u', 'ü')],
+    };
+    if map.is_empty() {
+        return Some(text);
+    }
+    let mut out = String::with_capacity(text.len() + 64);
+    for (k, line) in text.split('\n').enumerate() {
+        if k > 0 {
+            out.push('\n');
+        }
+        if line.trim_start().starts_with('<') {
+            out.push_str(line);
+            continue;
+        }
+        let mut inside = false;
+        for ch in line.chars() {
+            if ch == '"' {
+                inside = !inside;
+            }
+            out.push(if inside { map.iter().find(|m| m.0 == ch).map_or(ch, |m| m.1) } else { ch });
+        }
+    }
+    Some(out)
+}
+
 pub fn read_text(path: &str) -> String {
+    if path.starts_with(GEN_PREFIX) {
+        return gen_text(path).unwrap_or_default();
+    }
     match kind_of(path) {
         Kind::Ctehexml => std::fs::read_to_string(path).unwrap_or_default(),
         _ => read_latin1(Path::new(path)),
@@ -290,8 +348,8 @@ pub fn worker(sub: &str, v: Value) -> Value {
     // for every edit that puts an out-of-range or non-numeric value somewhere and for one in four of the others
     let tool = kind == Kind::Ctehexml && (c.edit.starts_with("number->") || c.edit == "intact" || c.edit == "saved-input" || fnv64(format!("t{}{}{}", c.file, c.line, c.edit).as_bytes()) % 4 == 0);
     match run_pipeline_with(kind, &damaged, real, tool) {
-        Ok(s) => json!({"applied": true, "result": "ok", "detail": s, "trivial": trivial}),
-        Err(e) => json!({"applied": true, "result": "err", "detail": e.chars().take(160).collect::<String>(), "trivial": trivial}),
+        Ok(s) => json!({"applied": true, "result": "ok", "detail": s, "trivial": trivial, "accented": !text.is_ascii()}),
+        Err(e) => json!({"applied": true, "result": "err", "detail": e.chars().take(160).collect::<String>(), "trivial": trivial, "accented": !text.is_ascii()}),
     }
 }
 
@@ -346,6 +404,9 @@ fn check_extra(h: &CaseH, c: &FaultCase) -> Verdict {
             }
             let r = v["result"].as_str().unwrap_or("");
             h.class(&format!("{}/{}/{}", kname, c.edit, r));
+            if c.file.starts_with(GEN_PREFIX) && v["accented"] == json!(true) {
+                h.class("accented-names");
+            }
             if v["trivial"] != json!(true) {
                 h.nontrivial(fnv64(format!("x|{}|{}|{}", c.file, c.line, c.edit).as_bytes()));
             }
@@ -385,6 +446,9 @@ fn check_case(h: &CaseH, c: &FaultCase) -> Verdict {
             }
             let r = v["result"].as_str().unwrap_or("");
             h.class(&format!("{}/{}/{}", kname, c.edit, r));
+            if c.file.starts_with(GEN_PREFIX) && v["accented"] == json!(true) {
+                h.class("accented-names");
+            }
             if v["detail"].as_str().map_or(false, |d| d.contains("+tool-stage")) {
                 h.class("converted-and-indicators-computed");
             }
@@ -490,6 +554,38 @@ pub fn run(args: &Args) -> ! {
     };
     ctx.run_enum("saved_inputs", &saved, true, check_case);
     ctx.run_enum("faults", &cases, ctx.tier() == Tier::Thorough, check_case);
+    // generated projects (virtual files): names with accented letters, every form the generator knows
+    let gen_n = if ctx.wants("generated_faults") { ctx.tier().pick(6, GEN_POOL) } else { 0 };
+    let gdenom: u64 = ctx.tier().pick(4, 1);
+    let mut gcases: Vec<FaultCase> = vec![];
+    for i in 0..gen_n {
+        let path = gen_name(ctx.seed(), i);
+        let text = read_text(&path);
+        // only projects that convert when intact are in the property's domain
+        if run_pipeline(kind_of(&path), &text, false).is_err() {
+            ctx.note(format!("generated project {} does not convert when intact: outside the property's domain, skipped", path));
+            continue;
+        }
+        gcases.push(FaultCase { file: path.clone(), line: 0, edit: "intact".into() });
+        for l in 0..text.split('\n').count() {
+            if gdenom != 1 && mix(ctx.seed(), &path, l as u64) % gdenom != 0 {
+                continue;
+            }
+            for e in EDITS {
+                gcases.push(FaultCase { file: path.clone(), line: l, edit: e.to_string() });
+            }
+        }
+    }
+    let mut order: Vec<usize> = (0..gcases.len()).collect();
+    order.sort_by_key(|i| mix(ctx.seed(), "gorder", *i as u64));
+    let gcases: Vec<FaultCase> = order.into_iter().map(|i| gcases[i].clone()).collect();
+    ctx.note(format!("{} generated-project cases", gcases.len()));
+    ctx.run_enum("generated_faults", &gcases, false, check_case);
+    for k in ["Ctehexml", "Cte"] {
+        ctx.require_class(&format!("generated_faults/{}/delete-line/err", k));
+        ctx.require_class(&format!("generated_faults/{}/intact/ok", k));
+    }
+    ctx.require_class("generated_faults/accented-names");
     let skipped = ctx.class_total("faults/skipped-after-repeated-hangs");
     if skipped > 0 {
         ctx.note(format!("{} hangs were observed (each is a violation and costs a 60 s watchdog period); the remaining {} cases of the enumeration were skipped", MAX_HANGS, skipped));
